@@ -4,7 +4,7 @@
 From Coq Require Import ZArith QArith Qabs Reals List Bool Arith.
 From Inkfem Require Import Num.NumOps Gen.GenLoads Gen.GenRecover Spec.Stiffness
   Model.Types Model.Slice Model.Loads Model.Dof Model.Assemble Model.Recover Spec.Resultant
-  Proofs.RecoverProofs Proofs.FieldProofs Proofs.LinearProofs Proofs.ScaleProofs.
+  Proofs.RecoverProofs Proofs.FieldProofs Proofs.LinearProofs Proofs.ScaleProofs Proofs.LinearBar.
 Import ListNotations.
 
 (* equivalent nodal loads: linear in the load intensities, all real numbers *)
@@ -110,3 +110,26 @@ Example C06_bar_example : length (slice_bar c06_bar) = 14%nat /\
   existsb (fun n => negb (Qeq_bool (t_fy (pn_ext n)) 0)) (slice_bar c06_bar) = true /\
   existsb (fun n => negb (Qeq_bool (t_mz (pn_left n)) 0)) (slice_bar c06_bar) = true.
 Proof. vm_compute. repeat split; reflexivity. Qed.
+
+(* linearity proper, for a whole bar: on one layout of loads (kinds, axes, positions) the nodal loads are a linear function
+   of the load values.  The bar carrying  a x (values of the first) + (values of the second)  is cut exactly where the two
+   are and, at every node, its external, left and right loads are  a x (first) + (second).  Two load sets written on a
+   common layout superpose (a = 1); the second set all zero gives scaling. *)
+Theorem C06_nodal_loads_of_a_bar_are_linear_in_the_load_values : forall (a : Q) (b1 b2 : bar Q), same_layout b1 b2 ->
+  Forall3 (fun n1 n2 n3 => pn_t n2 = pn_t n1 /\ pn_t n3 = pn_t n1 /\ pn_x n3 = pn_x n1 /\ pn_y n3 = pn_y n1 /\
+                           tor_eq (pn_ext n3) (tcomb a (pn_ext n1) (pn_ext n2)) /\ tor_eq (pn_left n3) (tcomb a (pn_left n1) (pn_left n2)) /\
+                           tor_eq (pn_right n3) (tcomb a (pn_right n1) (pn_right n2)))
+          (slice_bar b1) (slice_bar b2) (slice_bar (comb_bar a b1 b2)).
+Proof. exact nodal_loads_linear_in_the_load_values. Qed.
+Print Assumptions C06_nodal_loads_of_a_bar_are_linear_in_the_load_values.
+
+(* not vacuous: the example bar above and the same layout with other values *)
+Definition c06_bar2 : bar Q := {| b_n1 := 0; b_n2 := 1; b_l1 := rigid; b_l2 := rigid; b_x1 := 0; b_y1 := 0; b_x2 := 3; b_y2 := 4;
+  b_L := 5; b_c := 3 # 5; b_s := 4 # 5; b_E := 1; b_A := 1; b_I := 1; b_S := 1; b_rho := 0;
+  b_cl := [ {| cl_term := FY; cl_local := false; cl_t := 1 # 3; cl_v := 11 # 2 |} ];
+  b_dl := [ {| dl_term := FY; dl_local := true; dl_t0 := 1 # 4; dl_v0 := 0; dl_t1 := 3 # 4; dl_v1 := 9 # 1 |} ] |}.
+Example C06_layout_example : same_layout c06_bar c06_bar2 /\ length (slice_bar (comb_bar (- (3 # 1)) c06_bar c06_bar2)) = 14%nat.
+Proof.
+  split; [| vm_compute; reflexivity].
+  constructor; try reflexivity; (constructor; [repeat split; reflexivity | constructor]).
+Qed.
